@@ -681,6 +681,8 @@ def _as_map(s):
 
 
 def _close(a, b):
+    if a in (float("inf"), float("-inf")) or b in (float("inf"), float("-inf")):
+        return a == b
     return (a != a and b != b) or (a == a and b == b and abs(a - b) <= 1e-9 * max(1.0, abs(a), abs(b)))
 
 
